@@ -162,6 +162,10 @@ class Engine(ExprMixin, CallMixin, StmtMixin):
     def generate1(self, c, extra_ensures, drop_ensures, pin):
         self.reset()
         fdef, text, cls = front.find_def(c.qual)
+        if c.extract:
+            fdef = ast.fix_missing_locations(c.extract(fdef))
+            self.assumptions.add("%s: verified text is extracted mechanically from the real AST on every run: %s"
+                                 % (c.name, (c.extract.__doc__ or "").strip().split("\n")[0]))
         self.cur_name = c.name
         self.cur_rel = c.qual.split(":")[0]
         self.contract_stack = [c]
